@@ -91,7 +91,7 @@ Lemma loop_indexed_total (f : Row -> option L) (g : Row -> L) X y : length y = l
 Proof.
   intros H Hf. rewrite loop_indexed_map2 by exact H. revert y H.
   induction X as [|x X IH]; intros [|a y] H; simpl in *; try discriminate; auto.
-  unfold keep at 1. rewrite (Hf x) by auto. f_equal. apply IH; auto. lia.
+  unfold keep at 1. rewrite (Hf x) by auto. f_equal. apply IH; [intros; apply Hf; right; assumption | lia].
 Qed.
 End LoopsP.
 
@@ -398,6 +398,70 @@ Proof.
 Qed.
 End RealsP.
 
+Lemma iso_inplace_R reg resp (X : mat R) (y : list R) : reg <> [] -> rect 1 X = true -> length y = length X ->
+  iso_inplace R_ops reg resp X y = Some (rowwise (fun row => iso_predict R_ops reg resp 0%R (nth 0 row 0%R)) X).
+Proof.
+  intros Hne Hr Hl. rewrite iso_inplace_elementwise, Hr. cbn [guard].
+  rewrite Hl, Nat.eqb_refl. cbn [guard]. f_equal. unfold rowwise.
+  revert y Hl. clear Hr. induction X as [|x X IH]; intros [|a y] Hl; simpl in *; try discriminate; auto.
+  f_equal; [|apply IH; lia].
+  unfold iso_predict. pose proof (iso_value_R_total reg resp (nth 0 x 0%R) Hne) as Ht.
+  destruct (iso_value R_ops reg resp (nth 0 x 0%R)); [reflexivity|congruence].
+Qed.
+
+(** * 6. The arg-max of ndarray-stats over the reals: never fails on a non-empty lane and returns
+    the first position of the maximum *)
+Section ArgmaxP.
+Local Open Scope R_scope.
+
+Lemma pcmp_R a b : pcmp R_ops a b = if Rlt_dec a b then Some Lt else if Req_EM_T a b then Some Eq else Some Gt.
+Proof.
+  unfold pcmp; simpl. unfold Rltb, Reqb.
+  destruct (Rlt_dec a b); auto. destruct (Req_EM_T a b); auto. destruct (Rlt_dec b a); auto. lra.
+Qed.
+
+Lemma argmax_from_R : forall (l pre : list R) (best : nat) (cur : R),
+  (best < length pre)%nat -> cur = nth best pre 0 ->
+  (forall j, (j < length pre)%nat -> nth j pre 0 <= cur) ->
+  (forall j, (j < best)%nat -> nth j pre 0 < cur) ->
+  exists k, argmax_from R_ops l (length pre) best cur = Some k /\ (k < length (pre ++ l))%nat
+    /\ (forall j, (j < length (pre ++ l))%nat -> nth j (pre ++ l) 0 <= nth k (pre ++ l) 0)
+    /\ (forall j, (j < k)%nat -> nth j (pre ++ l) 0 < nth k (pre ++ l) 0).
+Proof.
+  induction l as [|e l IH]; intros pre best cur Hb Hc Hall Hfirst.
+  - exists best. rewrite app_nil_r. simpl. subst cur. repeat split; auto.
+  - cbn [argmax_from]. rewrite pcmp_R.
+    assert (Hlen : length (pre ++ [e]) = S (length pre)) by (rewrite app_length; simpl; lia).
+    assert (Hold : forall j, (j < length pre)%nat -> nth j (pre ++ [e]) 0 = nth j pre 0) by (intros; apply app_nth1; auto).
+    assert (Hnew : nth (length pre) (pre ++ [e]) 0 = e) by (rewrite app_nth2, Nat.sub_diag; auto).
+    replace (pre ++ e :: l) with ((pre ++ [e]) ++ l) by (rewrite <- app_assoc; reflexivity).
+    replace (S (length pre)) with (length (pre ++ [e])) by exact Hlen.
+    destruct (Rlt_dec e cur) as [Hlt|Hnlt]; [|destruct (Req_EM_T e cur) as [Heq|Hne]].
+    + apply IH; [lia | rewrite Hold by lia; exact Hc | | intros j Hj; rewrite Hold by lia; auto].
+      intros j Hj. destruct (Nat.eq_dec j (length pre)) as [->|Hn]; [rewrite Hnew; lra | rewrite Hold by lia; apply Hall; lia].
+    + apply IH; [lia | rewrite Hold by lia; exact Hc | | intros j Hj; rewrite Hold by lia; auto].
+      intros j Hj. destruct (Nat.eq_dec j (length pre)) as [->|Hn]; [rewrite Hnew; lra | rewrite Hold by lia; apply Hall; lia].
+    + assert (Hgt : cur < e) by lra.
+      apply IH; [lia | symmetry; exact Hnew | |].
+      * intros j Hj. destruct (Nat.eq_dec j (length pre)) as [->|Hn]; [rewrite Hnew; lra|].
+        rewrite Hold by lia. specialize (Hall j ltac:(lia)). lra.
+      * intros j Hj. rewrite Hold by lia. specialize (Hall j Hj). lra.
+Qed.
+
+Lemma argmax_R_first_max (l : list R) : l <> [] ->
+  exists k, argmax R_ops l = Some k /\ (k < length l)%nat
+    /\ (forall j, (j < length l)%nat -> nth j l 0 <= nth k l 0)
+    /\ (forall j, (j < k)%nat -> nth j l 0 < nth k l 0).
+Proof.
+  destruct l as [|a l]; [congruence|]. intros _.
+  unfold argmax. cbn [argmax_from]. rewrite pcmp_R.
+  destruct (Rlt_dec a a) as [H|_]; [lra|]. destruct (Req_EM_T a a) as [_|H]; [|congruence].
+  apply (argmax_from_R l [a] 0%nat a); simpl; auto.
+  - intros j Hj. destruct j; [lra|lia].
+  - intros j Hj. lia.
+Qed.
+End ArgmaxP.
+
 (** * Non-vacuity *)
 Example ex_lin_inplace :
   lin_inplace (F := nat) {| zero := 0; one := 1; add := Nat.add; sub := Nat.sub; mul := Nat.mul; div := Nat.div;
@@ -406,3 +470,36 @@ Example ex_lin_inplace :
               (fun x w => fold_left Nat.add (map2 Nat.mul x w) 0) 2 [3; 4] 5 [[1; 2]; [0; 1]; [2; 0]] [9; 9; 9]
   = Some [16; 9; 11].
 Proof. reflexivity. Qed.
+
+(* two classes, two features: scores (1*2+0*1+3, 1*0+0*1+4) = (5, 4) and (0+5+3, 0+5+4) = (8, 9) *)
+Example ex_mlogit_rows :
+  let o := {| zero := 0; one := 1; add := Nat.add; sub := Nat.sub; mul := Nat.mul; div := Nat.div;
+              opp := fun x => x; abs := fun x => x; sqrt := fun x => x;
+              ltb := Nat.ltb; leb := Nat.leb; eqb := Nat.eqb; of_N := N.to_nat |} in
+  mlogit_inplace o (fun x w => fold_left Nat.add (map2 Nat.mul x w) 0) 2 2 [[2; 0]; [1; 1]] [3; 4] [70; 80] 0
+                 [[1; 0]; [0; 5]] [0; 0]
+  = Some [70; 80].
+Proof. reflexivity. Qed.
+
+(* the isotonic loop leaves an element alone when the row function returns None *)
+Example ex_loop_indexed :
+  loop_indexed (fun x : nat => if Nat.eqb x 0 then None else Some (10 * x)) [1; 0; 3] [7; 8; 9] = [10; 8; 30].
+Proof. reflexivity. Qed.
+
+(* column-major sum_axis: accumulating the columns gives the sequential row sums *)
+Example ex_sum_axis1 :
+  let o := {| zero := 0; one := 1; add := Nat.add; sub := Nat.sub; mul := Nat.mul; div := Nat.div;
+              opp := fun x => x; abs := fun x => x; sqrt := fun x => x;
+              ltb := Nat.ltb; leb := Nat.leb; eqb := Nat.eqb; of_N := N.to_nat |} in
+  sum_axis1 o false 3 [[1; 2; 3]; [4; 5; 6]] = [6; 15] /\ rect 3 [[1; 2; 3]; [4; 5; 6]] = true.
+Proof. split; reflexivity. Qed.
+
+Example ex_argmax_R : exists k, argmax R_ops [1; 3; 2; 3]%R = Some k /\ k = 1%nat.
+Proof.
+  destruct (argmax_R_first_max [1; 3; 2; 3]%R ltac:(discriminate)) as [k [Hk [Hlt [Hall Hfirst]]]].
+  exists k. split; auto. simpl in Hlt.
+  destruct k as [|[|[|[|k]]]]; try lia; auto.
+  - specialize (Hall 1%nat ltac:(simpl; lia)). simpl in Hall. lra.
+  - specialize (Hall 1%nat ltac:(simpl; lia)). simpl in Hall. lra.
+  - specialize (Hfirst 1%nat ltac:(lia)). simpl in Hfirst. lra.
+Qed.
